@@ -8,11 +8,11 @@ cd "$WT" || exit 2
 export CARGO_NET_OFFLINE=true
 git diff -- src/ Cargo.toml > /tmp/seedeval-$ID.diff
 [ -s /tmp/seedeval-$ID.diff ] || { echo "no source change"; exit 2; }
-suite=$(cargo test --offline --lib 2>&1 | grep "^test result" | head -1)
-doc=$(cargo test --offline --doc 2>&1 | grep "^test result" | head -1)
-with=$(cargo test --offline --test seeded_demo 2>&1 | grep "^test result" | head -1)
+suite=$(cargo test --offline --lib 2>&1 | grep "^test result:" | head -1)
+doc=$(cargo test --offline --doc 2>&1 | grep "^test result:" | head -1)
+with=$(cargo test --offline --test seeded_demo 2>&1 | grep "^test result:" | head -1)
 git checkout -q -- src/ Cargo.toml
-without=$(cargo test --offline --test seeded_demo 2>&1 | grep "^test result" | head -1)
+without=$(cargo test --offline --test seeded_demo 2>&1 | grep "^test result:" | head -1)
 git apply /tmp/seedeval-$ID.diff
 echo "suite(with change): $suite"; echo "doc(with change): $doc"; echo "demo with change: $with"; echo "demo without:     $without"
 case "$suite" in *"133 passed; 0 failed"*) ;; *) echo "REJECT: existing suite changed"; exit 1;; esac
